@@ -329,6 +329,26 @@ def envs(draw, designer=None):
 
 
 @st.composite
+def policy_strategy(draw):
+  """A hostable designer behind a per-request policy, its stored state damaged
+  before some requests; K_SEEDS seeds for the 'seed is still used' clause."""
+  run = draw(stream_run(designers=lib.HOSTABLE))
+  run['prior'] = []
+  steps = run['steps']
+  while len(steps) < 3:
+    steps.append({'count': draw(st.integers(1, 4)), 'fb': []})
+  k = draw(st.integers(1, len(steps) - 1))
+  run['damage'] = sorted({k} | set(draw(st.lists(
+      st.integers(1, len(steps) - 1), max_size=2))))
+  # >= 8 suggestions after the first damaged request
+  while sum(s_['count'] for s_ in steps[k:]) < 8:
+    steps.append({'count': 4, 'fb': []})
+  seeds = draw(_seeds(K_SEEDS))
+  run['seed'] = seeds[0]
+  return {'run': run, 'seeds': seeds, 'envs': draw(envs(run['designer']))}
+
+
+@st.composite
 def cheap_strategy(draw):
   run = draw(stream_run())
   return {'run': run, 'envs': draw(envs(run['designer']))}
@@ -675,6 +695,49 @@ def check_cheap(case):
   return out
 
 
+def check_policy(case):
+  """R1 for the hosted designer (same seed, same history, same damage ->
+  same suggestions whatever the clock / global RNGs are) and R2 for the part
+  after the restart (the seed still decides the stream)."""
+  out = core.Out()
+  run = case['run']
+  item = {'kind': 'policy', 'run': run}
+  _stream_classes(out, run)
+  out.cls('hosted_' + run['designer'])
+  first = _pairs(out, 'R1/hosted', item, case['envs'])
+  if first.get('error'):
+    return out
+  out.nontrivial = True
+  post = []
+  for i, s_ in enumerate(case['seeds']):
+    o = first if i == 0 else lib.execute(dict(
+        item, run=dict(run, seed=s_), env=case['envs']['a']))
+    post.append(o.get('post'))
+  randomised = run['designer'] in ('eagle', 'nsga2', 'cmaes') or (
+      run['designer'] == 'grid' and _shuffles(run))
+  if randomised and sum(len(b) for b in post[0] or []) >= 8:
+    if all(p == post[0] for p in post[1:]):
+      out.violate('R2/seed_ignored_after_state_loss/%s' % run['designer'],
+                  '%d pairwise different seeds %r give the same suggestions '
+                  'after the stored designer state became undecodable: %.300r'
+                  % (len(post), case['seeds'], post[0][:1]))
+    else:
+      out.cls('r2_judged_after_state_loss')
+  return out
+
+
+def _shuffles(run):
+  """A seeded grid shuffles the values of every axis; seeds are told apart
+  reliably only when there are many orderings (>= 1e12, as in
+  _grid_unshuffled)."""
+  import math
+  res = (run.get('opts') or {}).get('double_grid_resolution', 10)
+  if run.get('entry') == 'from_problem':
+    res = 10
+  axes = [lib.grid_axis_len(p, res) for p in run['space']['params']]
+  return math.prod(math.factorial(n) for n in axes) >= 1e12
+
+
 def check_seeds(case):
   out = core.Out()
   run = case['run']
@@ -876,6 +939,11 @@ def families(tier):
                       'unrelated_study_first', 'entry_from_problem',
                       'nsga2_mutation_phase', 'eagle_pool_full_expected',
                       'cmaes_generation_update')),
+      core.Family('policy_host', check_policy, strategy=policy_strategy,
+                  budget={'quick': 240, 'thorough': 4000},
+                  shards={'quick': 8, 'thorough': 16},
+                  required_classes=tuple('hosted_' + d for d in lib.HOSTABLE)
+                  + ('r2_judged_after_state_loss',)),
       core.Family('seeds', check_seeds, strategy=seeds_strategy,
                   budget={'quick': 400, 'thorough': 4000},
                   shards={'quick': 8, 'thorough': 16},
